@@ -357,7 +357,14 @@ func execCluster(run *core.Run, p *plan) {
 				return
 			}
 			run.Logf("op%d DropDatabase(%s) -> %v", i, name, err)
-			if err == errStillRunning {
+			if err != nil {
+				// The outcome is unknown (e.g. "leadership lost while
+				// committing log"): the drop may still take effect. A later
+				// CreateDatabase of the name that the client answers from its
+				// cache (the database is still there, nothing is proposed) is
+				// not a change the meta service acknowledged, and the harness
+				// cannot tell it from a proposed one - the name is not judged
+				// any more.
 				tainted[name] = true
 			}
 			// its retention policies go with it (also when the outcome is unknown)
